@@ -34,10 +34,10 @@ ASSUMPTIONS = ['Fraction arithmetic, the Sturm implementation in vt/ref/exact.py
 TIERS = {
     'quick': {'shards': 14, 'random': 14000, 'timeout': 600, 'min_cases': 8000,
               'require_branches': ['symbolic:identities-proved', 'roots:close-pair-present', 'roots:complex-near-axis',
-                                   'limit:common-zero', 'roots:internal-caller']},
+                                   'limit:common-zero', 'roots:internal-caller', 'roots:neighbour-fails-condition']},
     'thorough': {'shards': 14, 'random': 600000, 'timeout': 3000, 'min_cases': 200000,
                  'require_branches': ['symbolic:identities-proved', 'roots:close-pair-present',
-                                      'roots:complex-near-axis', 'limit:common-zero', 'roots:internal-caller']},
+                                      'roots:complex-near-axis', 'limit:common-zero', 'roots:internal-caller', 'roots:neighbour-fails-condition']},
 }
 EPS = gen.EPS
 
@@ -216,9 +216,23 @@ def _judgeable_roots(coeffs, condition, realroots):
         if mult:
             sk('multiple root')
             continue
-        if any(abs(r - o) < 1e-4 * max(1.0, abs(r)) for k, o in enumerate(reals) if k != idx):
-            sk('another real root within 1e-4')
-            continue
+        near = [o for k, o in enumerate(reals) if k != idx and abs(r - o) < 1e-4 * max(1.0, abs(r))]
+        straddle = False
+        if near:
+            # a neighbour excuses the root (the two may legitimately be merged as duplicates) unless it clearly
+            # FAILS the condition: then it is not a root "that satisfies the condition", nothing may be merged
+            # with it, and the root next to it must still be reported (neighbour >= 4e-6 away so that both are
+            # clearly on their side of the condition and resolved by any root finder)
+            def fails(o):
+                try:
+                    return not any(bool(condition(v)) for v in (o, o - 1e-6, o + 1e-6))
+                except Exception:
+                    return False
+            if all(abs(r - o) >= 4e-6 * max(1.0, abs(r)) and fails(o) for o in near):
+                straddle = True
+            else:
+                sk('another real root within 1e-4')
+                continue
         if any(abs(z.real - r) < 1e-3 * max(1.0, abs(r)) for z in nearreal):
             sk('complex pair close to the axis near this root')
             continue
@@ -239,6 +253,8 @@ def _judgeable_roots(coeffs, condition, realroots):
         if not err < 1e-8 * max(1.0, abs(r)):
             sk('ill-conditioned root')
             continue
+        if straddle:
+            core.CTX.branch('roots:neighbour-fails-condition')
         out.append(r)
     return out, skips
 
@@ -513,6 +529,19 @@ def cases(ctx):
                 pts = [[float(round(a)), float(round(b))] for a, b in pts]
             ts = [rng.choice([0, 1, 0.5, 0.25]), rng.uniform(0, 1), rng.uniform(-0.25, 1.25)]
             yield {'kind': 'bez', 'pts': pts, 'ts': ts, 'cls': ['bez', 'deg%d' % deg]}
+        elif k < 0.36:
+            # two real roots 4e-6 .. 1e-4 apart on either side of the condition's boundary, plus a few others:
+            # only one of the two satisfies the condition, and it has to be reported
+            # (the library merges roots that numpy.isclose calls equal, i.e. closer than about 1e-5 relative)
+            c = rng.choice([1.0, 2.0, 2.0, 8.0, 30.0])
+            sep = c * 10.0 ** rng.uniform(-5.34, -4.3)
+            a = rng.uniform(0.35, 0.65)
+            roots = [c - a * sep, c + (1 - a) * sep]
+            for _ in range(rng.randint(0, 2)):
+                roots.append(c + rng.choice([-1, 1]) * rng.uniform(1.5, 4) * c)
+            rng.shuffle(roots)
+            yield {'kind': 'roots', 'roots': roots, 'lead': rng.choice([1.0, -1.0, 3.0]),
+                   'cond': rng.choice(['le:', 'ge:']) + repr(c), 'cls': ['roots', 'roots:straddle-condition']}
         elif k < 0.8:
             roots, tags = _root_set(rng)
             lead = rng.choice([1.0, -1.0, 10.0 ** rng.uniform(-6, 6)])
@@ -544,6 +573,17 @@ CONDS = {
     'open01': lambda r: 0 < r < 1,
     'pos': lambda r: r > 0,
 }
+
+
+def _cond(name):
+    if name.startswith('le:'):
+        c = float(name[3:])
+        return lambda r: r <= c
+    if name.startswith('ge:'):
+        c = float(name[3:])
+        return lambda r: r >= c
+    return CONDS[name]
+
 
 
 def run_case(ctx, case):
@@ -583,7 +623,7 @@ def run_case(ctx, case):
             T.polyroots01(coeffs)
             T.polyroots01(np.poly1d(coeffs))
         else:
-            T.polyroots(coeffs, realroots=True, condition=CONDS[case['cond']])
+            T.polyroots(coeffs, realroots=True, condition=_cond(case['cond']))
             if case['cond'] == 'all':
                 T.polyroots(coeffs)
     elif kind == 'limit':
